@@ -52,6 +52,22 @@ def s5_css_forms(chk: Check, proj: Project, m) -> None:
         chk.holds("S5", "component_media:_normalize_media:empty-css-forms", m.loc(f), "the css normalisation is not guarded by plain truthiness", nontrivial=False)
         return
     g = guards[0]
+    # the forms are normalised wherever attribute lookup FINDS them: a Media class may inherit css / js in a short form from a
+    # plain class that was never normalised
+    def _own_dict_test(t: ast.expr) -> bool:
+        txt = norm(t)
+        if "__dict__" in txt or "vars(" in txt:
+            return True
+        for nm_ in {y.id for y in ast.walk(t) if isinstance(y, ast.Name)}:
+            for _s, x in assignments(f, nm_):
+                if x is not None and ("__dict__" in norm(x) or norm(x).startswith("vars(")):
+                    return True
+        return False
+
+    own_only = [st for st in ast.walk(f) if isinstance(st, ast.If) and ("css" in norm(st.test) or "js" in norm(st.test)) and _own_dict_test(st.test)]
+    chk.ob("S5", "component_media:_normalize_media:inherited-forms-normalised-too", m.loc(own_only[0]) if own_only else m.loc(g), not own_only,
+           "the guards use attribute lookup (hasattr / getattr): inherited short forms are normalised as well" if not own_only else
+           f"`if {short(own_only[0].test)}` looks only at what the Media class declares ITSELF: `class Media(SharedAssets)` that inherits `css = \"a.css\"` (or a list, or {{\"print\": \"p.css\"}}) from a plain class keeps the short form - ValueError at class creation, or the string split into characters")
     # an earlier (or else-) statement maps the falsy non-None values to a dict
     fixes = [st for st in ast.walk(f) if isinstance(st, ast.Assign) and norm(st.targets[0]) == css and isinstance(st.value, (ast.Dict, ast.Call)) and (norm(st.value) in ("{}", "dict()"))
              and any((t == css and not pol) or t == f"not {css}" for t, pol in cond_atoms(st))]
